@@ -105,9 +105,21 @@ return f()`,
 // version-2 program again (so it reaches the same instructions and reports
 // the same source lines), and runs to the same outcome for all inputs.
 func VerifC11Prog() {
-	src := verifC11Progs[verifrt.Param("prog")]
+	verifC11Check(verifC11Progs[verifrt.Param("prog")], nil)
+}
+
+// VerifC11Corpus: the same for every program of the shared corpus (the C02
+// family and try/catch/finally shapes: several functions with jumps, loops
+// whose heads precede the first jump, nested handlers).
+func VerifC11Corpus() {
+	verifrt.Assert(ugo.VerifCorpusLen() == verifrt.Param("len"), "job-table-covers-the-corpus")
+	src, args := ugo.VerifCorpus(verifrt.Param("prog"))
+	verifC11Check(src, args)
+}
+
+func verifC11Check(src string, args []ugo.Object) {
 	bc, err := ugo.Compile([]byte(src), ugo.CompilerOptions{NoOptimize: verifrt.Param("opt") == 0})
-	verifrt.Assert(err == nil, "compiles")
+	verifrt.AssertMsg(err == nil, "compiles", src)
 	if err != nil {
 		return
 	}
@@ -148,13 +160,15 @@ func VerifC11Prog() {
 			verifrt.Reached("end")
 			return
 		}
-		a := ugo.Int(verifrt.Int64("a"))
+		if args == nil {
+			args = []ugo.Object{ugo.Int(verifrt.Int64("a"))}
+		}
 		var v1v, v2v ugo.Object
 		var e1, e2 error
 		var o1, o2 string
 		verifrt.NoPanic("run-no-panic", func() {
-			v2v, e2, o2 = ugo.VerifRunBC(bc, a)
-			v1v, e1, o1 = ugo.VerifRunBC((*ugo.Bytecode)(&got), a)
+			v2v, e2, o2 = ugo.VerifRunBC(bc, args...)
+			v1v, e1, o1 = ugo.VerifRunBC((*ugo.Bytecode)(&got), args...)
 		})
 		verifrt.Assert(ugo.VerifSameError(e1, e2) && o1 == o2 && (e1 != nil || ugo.VerifSameObject(v1v, v2v)), "v1-runs-like-v2")
 		if e1 != nil && e2 != nil {
@@ -258,22 +272,61 @@ func VerifC11Kernel() {
 	}
 	sk := verifrt.Choice("srckey", n)
 	cf := &ugo.CompiledFunction{Instructions: v1, SourceMap: map[int]int{oldPos[sk]: 77}}
-	opWidth := make([]int, len(opv1.OpcodeOperands))
-	for op, operands := range opv1.OpcodeOperands {
-		opWidth[op] = verifWidth(operands)
-	}
 	hasJump := false
 	for _, p := range prog {
 		hasJump = hasJump || p.class >= 3
 	}
-	var err error
+	// The function goes through the public version-1 decoding path, alone as
+	// the main function or as a constant next to a main function (and an
+	// earlier constant) that have jumps of their own, so that whatever the
+	// converter keeps between functions is exercised.
+	base, cerr := ugo.Compile([]byte(`return 1`), ugo.CompilerOptions{})
+	verifrt.Assert(cerr == nil, "compiles")
+	if cerr != nil {
+		return
+	}
+	other := func() *ugo.CompiledFunction {
+		// v1: JUMP 4; POP; POP; POP; POP   (target = third instruction)
+		return &ugo.CompiledFunction{Instructions: []byte{opv1.OpJump, 0, 4, opv1.OpPop, opv1.OpPop, opv1.OpPop, opv1.OpPop},
+			SourceMap: map[int]int{4: 5}}
+	}
+	otherWant := []byte{opv1.OpJump, 0, 0, 0, 6, opv1.OpPop, opv1.OpPop, opv1.OpPop, opv1.OpPop}
+	v1bc := &ugo.Bytecode{FileSet: base.FileSet}
+	ctx := verifrt.Choice("ctx", 3)
+	switch ctx {
+	case 0:
+		v1bc.Main = cf
+	case 1:
+		v1bc.Main = other()
+		v1bc.Constants = []ugo.Object{cf}
+	default:
+		v1bc.Main = other()
+		v1bc.Constants = []ugo.Object{other(), ugo.Int(7), cf}
+	}
+	data, err := (*Bytecode)(v1bc).MarshalBinary()
+	verifrt.Assert(err == nil, "encodes")
+	if err != nil {
+		return
+	}
+	data[4], data[5] = 0, 1 // version 1 header
+	var got Bytecode
 	verifrt.Known("C11-v1-jump-targets-not-relocated", hasJump)
-	verifrt.NoPanic("conv-no-panic", func() { err = convCompFuncV1ToV2(cf, opWidth) })
+	verifrt.NoPanic("conv-no-panic", func() { err = got.UnmarshalBinary(data) })
 	verifrt.Assert(err == nil, "conv-succeeds")
 	if err == nil {
-		verifrt.Assert(bytes.Equal(cf.Instructions, want), "targets-relocated-operands-kept")
-		v, ok := cf.SourceMap[newPos[sk]]
-		verifrt.Assert(ok && v == 77 && len(cf.SourceMap) == 1, "source-map-relocated")
+		var g *ugo.CompiledFunction
+		if ctx == 0 {
+			g = got.Main
+		} else if len(got.Constants) == len(v1bc.Constants) {
+			g, _ = got.Constants[len(got.Constants)-1].(*ugo.CompiledFunction)
+			verifrt.Assert(got.Main != nil && bytes.Equal(got.Main.Instructions, otherWant) && got.Main.SourceMap[6] == 5, "neighbour-function-relocated")
+		}
+		verifrt.Assert(g != nil, "function-decoded")
+		if g != nil {
+			verifrt.Assert(bytes.Equal(g.Instructions, want), "targets-relocated-operands-kept")
+			v, ok := g.SourceMap[newPos[sk]]
+			verifrt.Assert(ok && v == 77 && len(g.SourceMap) == 1, "source-map-relocated")
+		}
 	}
 	verifrt.ClearKnown()
 	verifrt.Reached("end")
